@@ -159,9 +159,13 @@ func (c *mtastsPolicy) Close() error {
 }
 
 func (c *mtastsDelivery) PrepareDomain(ctx context.Context, domain string) {
-	c.policyFut = future.New()
+	// The goroutine has to fill the future created here, not the one
+	// policyFut points to when the lookup is finished (PrepareDomain may be
+	// called again for another domain before that).
+	fut := future.New()
+	c.policyFut = fut
 	go func() {
-		c.policyFut.Set(c.c.mtastsGet(ctx, domain))
+		fut.Set(c.c.mtastsGet(ctx, domain))
 	}()
 }
 
@@ -474,7 +478,11 @@ func (c *daneDelivery) PrepareConn(ctx context.Context, mx string) {
 		return
 	}
 
-	c.tlsaFut = future.New()
+	// The goroutine has to fill the future created here, not the one
+	// tlsaFut points to when the lookup is finished (PrepareConn is called
+	// again for the next MX if connection to this one fails early).
+	fut := future.New()
+	c.tlsaFut = fut
 
 	go func() {
 		defer func() {
@@ -484,7 +492,7 @@ func (c *daneDelivery) PrepareConn(ctx context.Context, mx string) {
 			}
 		}()
 
-		c.tlsaFut.Set(c.discoverTLSA(ctx, dns.FQDN(mx)))
+		fut.Set(c.discoverTLSA(ctx, dns.FQDN(mx)))
 	}()
 }
 
